@@ -76,7 +76,40 @@ def run(ctx):
             if any(re.search(r"pkt.*\.data|data.*len|len", z) for z in srcs if z.startswith("var:pkt") or z.startswith("call:")) and \
                     any(z.startswith("var:pkt") for z in srcs) and any(z.startswith("var:self.cache_size") for z in srcs):
                 dep = True
-        if dep:
+        # the increment is at least what the cached copy holds: AlcPkt::to_cache copies the whole datagram (pkt.data), so the
+        # addend must be len(pkt.data) plus non-negative terms; an addend that subtracts (e.g. only the payload) undercounts
+        from .. import polarity
+        under = None
+        cands = []
+        xg = X(g.body)
+        for blk in g.body.blocks:
+            if blk.cleanup:
+                continue
+            for st in blk.stmts:
+                if st.k == "assign":
+                    cands.append(xg.rvalue(st.rv, xg.depth))
+            if blk.term.k == "call":
+                cands.append(xg.call_expr(blk.i, blk.term, xg.depth))
+        seen_add = set()
+        for ex in cands:
+            adds = [c for c in walk(ex) if (c[0] == "call" and re.search(r"::(checked_add|saturating_add|wrapping_add)$", c[1]) and len(c[2]) == 2)
+                    or (c[0] == "bin" and c[1].startswith("Add"))]
+            for c in adds:
+                l_, r_ = (c[2][0], c[2][1]) if c[0] == "call" else (c[2], c[3])
+                addend = r_ if show(l_) == "self.cache_size" else (l_ if show(r_) == "self.cache_size" else None)
+                if addend is None or show(addend) in seen_add:
+                    continue
+                seen_add.add(show(addend))
+                form, c0 = polarity.affine(gsl.expand(addend))
+                whole = [v for n, v in form.items() if re.search(r"len\(&?pkt\.data\)$", n)]
+                neg = [n for n, v in form.items() if v < 0]
+                if not whole or whole[0] < 1 or neg or c0 < 0:
+                    under = "cache_size grows by %s, which can be less than the %s bytes the cached copy holds" % (show(gsl.expand(addend), 80), "len(pkt.data)")
+        if not seen_add:
+            under = "no addition to self.cache_size found in %s" % fn.split("::")[-1]
+        if dep and under:
+            r2.violation(key, under + ": packets with small or empty payloads are cached without moving the counter, the limit never fires", loc(acc[0]["sp"]))
+        elif dep:
             r2.ok(key, "cache_size <- cache_size + pkt length", loc(acc[0]["sp"]))
         else:
             r2.violation(key, "the function pushes packets into the cache but never updates cache_size (%s): the limit "
@@ -103,7 +136,52 @@ def run(ctx):
         r2.ok("push: cache() failure -> error()", "", loc(p.sp))
     else:
         r2.violation("push: cache() failure -> error()", "a full cache does not abandon the object", loc(p.sp))
-    r2.floor(3, "cache facts")
+    # what is cached is the whole datagram
+    tc = prog.fn("common::alc::AlcPkt::<'a>::to_cache")
+    ctx.analysed(tc.path)
+    okc = False
+    for blk in tc.body.blocks:
+        for st in blk.stmts:
+            if st.k == "assign" and st.rv.k == "aggr" and (st.rv.j.get("adt") or "").endswith("AlcPktCache"):
+                e = X(tc.body).operand(st.rv.ops[st.rv.j["fnames"].index("data")])
+                from ..cfg import strip_ref
+                okc = e[0] == "call" and e[1].endswith("::to_vec") and show(strip_ref(e[2][0])) == "self.data"
+    if okc:
+        r2.ok("to_cache copies pkt.data", "AlcPktCache.data = self.data.to_vec()", loc(tc.sp))
+    else:
+        r2.violation("to_cache copies pkt.data", "the cached copy no longer holds exactly pkt.data: the counter in cache() measures something else", loc(tc.sp))
+    r2.floor(4, "cache facts")
+
+    # ---- R4 the timeout clock -----------------------------------------------------------------------
+    r4 = ctx.rule("C17.R4", "ObjectReceiver.last_activity - the clock Receiver::cleanup measures object_timeout against - is refreshed only "
+                            "by a packet of the object: written in ObjectReceiver::new and on ObjectReceiver::push (directly, or in a helper "
+                            "called from push only); an FDT arriving for the session must not keep a stalled object alive", "WWF + callers")
+    okfns = {OR + "::new", OR + "::push"}
+    for a in field_accesses(prog, OR, "last_activity"):
+        if a["kind"] not in ("assign", "assign_sub", "borrow_mut", "construct"):
+            continue
+        w = a["func"].root().path
+        key = "%s writes ObjectReceiver.last_activity" % w.split("::")[-1]
+        if w in okfns:
+            r4.ok(key, "", loc(a["sp"]))
+            continue
+        callers = sorted(set(c.func.root().path for c in find_calls(prog, "^" + re.escape(w) + "$")))
+        bad = [c for c in callers if c not in okfns]
+        if callers and not bad:
+            r4.ok(key, "helper called only from %s" % ", ".join(c.split("::")[-1] for c in callers), loc(a["sp"]))
+        else:
+            r4.violation(key, "the object timeout clock is refreshed from %s: an event other than a packet of the object (e.g. every new FDT "
+                              "instance attached through attach_latest_fdt_to_objects) keeps a stalled object for ever" % (
+                                  ", ".join(c.split("::")[-1] for c in bad) or w.split("::")[-1]), loc(a["sp"]))
+    # the timeout test reads that clock
+    la = prog.fn(OR + "::last_activity_duration_since")
+    rets = ret_assign_blocks(la.body, lambda e: True)
+    from ..cfg import strip_ref as _sr
+    if rets and all(e[0] == "call" and e[1].endswith("::duration_since") and show(_sr(e[2][1])) == "self.last_activity" for _, e in rets):
+        r4.ok("last_activity_duration_since reads last_activity", "", loc(la.sp))
+    else:
+        r4.violation("last_activity_duration_since reads last_activity", "returns %s" % [show(e, 80) for _, e in rets], loc(la.sp))
+    r4.floor(3, "timeout clock facts")
 
     # ---- R3 ----------------------------------------------------------------------------------
     r3 = ctx.rule("C17.R3", "Receiver::cleanup reaches a removal on `objects` (timeout) and on `fdt_receivers` for every state — an "
